@@ -1429,6 +1429,23 @@ def check_intscale(case, rec):
         dict(tags, kind="integral_scale_ctor_vs_len_scale"),
     )
     _reread_after_inplace(m, s3, case, rec, tags)
+    # "restore the old integral scale": the reported value is prescribed again after the length scale was changed in between
+    with common.quiet():
+        try:
+            x0 = float(m.integral_scale)
+            if math.isfinite(x0) and x0 > 0:
+                m.len_scale = float(m.len_scale) * 3.0
+                m.integral_scale = x0
+                x1 = float(m.integral_scale)
+                rec.label("integral_scale_prescribed_again")
+            else:
+                x1 = None
+        except ValueError:
+            x1 = None
+    if x1 is not None:
+        require(abs(x1 - x0) <= max(1e-6, 10.0 * tset) * x0,
+                f"{cls}{spec.get('opt')} dim={dim}: after `len_scale *= 3`, `integral_scale = {x0!r}` (the value reported before) leaves a model that reports {x1!r}",
+                dict(tags, kind="integral_scale_not_restored"))
 
 
 # ---------------------------------------------------------------------------
